@@ -274,6 +274,31 @@ func (h *HolderTaggedEmbeds) Check(nameOf func(any) string) []string {
 	return out
 }
 
+// One field, one binding: a field that carries a processor's tag is not offered to that processor's
+// extract handler as well (value next to prop; an explicit prefix tag on a type that announces a prefix).
+type PrefixedC11 struct {
+	S string `yaml:"s"`
+	N int    `yaml:"n"`
+}
+
+func (PrefixedC11) Prefix() string { return "c11.elsewhere" }
+
+type HolderBothTags struct {
+	N  int         `value:"1" prop:"c11.i"`
+	DB PrefixedC11 `prefix:"c11.sub"`
+}
+
+func (h *HolderBothTags) Check(nameOf func(any) string) []string {
+	var out []string
+	if h.N != 1 {
+		out = append(out, fmt.Sprintf("HolderBothTags.N `value:\"1\" prop:\"c11.i\"` = %d, the value tag says 1", h.N))
+	}
+	if h.DB != (PrefixedC11{S: "nested-value", N: 5}) {
+		out = append(out, fmt.Sprintf("HolderBothTags.DB `prefix:\"c11.sub\"` = %+v, configured {nested-value 5}", h.DB))
+	}
+	return out
+}
+
 // NewEmbedFixtures returns fresh fixture holders with sentinels in the fields the container must not touch.
 func NewEmbedFixtures() []EmbedFixture {
 	a := &HolderFlat{u: 777, N: "SENTINEL"}
@@ -285,6 +310,7 @@ func NewEmbedFixtures() []EmbedFixture {
 	d.u, d.N = 777, "SENTINEL"
 	return []EmbedFixture{a, b, c, d, &HolderSiblings{}, &HolderPtrEmbedded{SharedState: &SharedState{V: "SENTINEL"}},
 		&HolderLogger{},
+		&HolderBothTags{},
 		&HolderTaggedEmbeds{Stamped: Stamped{Inner: "SENTINEL"}, OptionsMix: OptionsMix{V: "SENTINEL"}},
 		&HolderPrefixedEmbed{PrefixedMix: PrefixedMix{Keep: "SENTINEL", Num: 4242, hidden: 777}}}
 }
